@@ -9,7 +9,7 @@
  C16.swap     swapBytes reverses exactly sizeof(T) bytes
 """
 import os
-import ir, q
+import ir, q, bounded
 from ir import strip, strip_lv, const_val, T, pe, walk_expr, fn_exprs, AnalysisBroken
 from core import fwhere
 
@@ -214,6 +214,44 @@ def check_partial(ctx, prog, rule='C16.partial', files=True):
                       '%s does not transfer n items of size 1 from/to p' % q_)
 
 
+def endian_values(prog):
+    en = prog.enums.get('asl::Endian')
+    if not en:
+        raise AnalysisBroken('enum asl::Endian not found')
+    return dict((c['n'], c['v']) for c in en['consts'])
+
+
+def endian_bind(f, prog, val):
+    def bind(e):
+        if e.get('k') in ('mem', 'call') and reads_endian_member(f, prog, e, 0):
+            return val
+        return None
+    return bind
+
+
+def site_runs(prog, f, g, site, other_val):
+    """{byte order name: True / False / None}: does `site` execute when the stream's byte-order member has that value"""
+    out = {}
+    rel = lambda c: any(w.get('k') in ('mem', 'call') and reads_endian_member(f, prog, w, 0) for w in walk_expr(q.expand(f, c, bools_only=True)))
+    for name, val in endian_values(prog).items():
+        ev = bounded.Bound(prog, f, {}, {}, bind=endian_bind(f, prog, val))
+        out[(name, val)] = bounded.admitted3(ev, g.of(site), g, relevant=rel)
+    return out
+
+
+def swap_guard_verdict(prog, f, g, site, other_val):
+    runs = site_runs(prog, f, g, site, other_val)
+    if not any(isinstance(c, dict) and any(reads_endian_member(f, prog, w, 0) for w in walk_expr(q.expand(f, c, bools_only=True))) for c, _, _ in g.of(site)):
+        return 'bad', 'byte swap is not guarded by a test of the stream byte-order member'
+    for (name, val), r in sorted(runs.items()):
+        want = (val == other_val)
+        if r is None:
+            return 'undecided', 'guards of the byte swap not evaluable for byte order %s' % name
+        if r != want:
+            return 'bad', ('bytes are swapped when the stream order is %s, which is the native order' % name) if r else ('bytes are not swapped when the stream order is %s, the non-native order' % name)
+    return 'ok', ''
+
+
 def check_scalar(ctx, prog, f, et, is_write, other_val):
     sz = et['sz']
     name = f['pq']
@@ -236,18 +274,15 @@ def check_scalar(ctx, prog, f, et, is_write, other_val):
         ctx.violation('C16.scalar.swap', name, inst + ':swap', fwhere(f), '%d byte-swap calls in a %d-byte scalar stream operator (expected exactly one, under the byte-order test)' % (len(swaps), sz))
         return
     sw = swaps[0]
-    gs = [x for x in g.of(sw) if x[2] in ('if', 'cond')]
-    if len(gs) != 1:
-        ctx.violation('C16.scalar.swap', name, inst + ':swap', fwhere(f, sw['l']), 'byte swap is guarded by %d conditions (expected the single byte-order test)' % len(gs))
+    # the swap must run exactly when the stream's byte-order member equals the non-native order: its guards (if / else /
+    # ?: / early return, read through named booleans) are evaluated with the member bound to each enumerator
+    verdict = swap_guard_verdict(prog, f, g, sw, other_val)
+    ctx.evaluations += 3
+    if verdict[0] == 'undecided':
+        ctx.undecided('C16.scalar.swap', name, inst + ':swap', fwhere(f, sw['l']), verdict[1])
         return
-    cond, pol, _ = gs[0]
-    ok, res = endian_test(f, prog, cond, other_val)
-    ctx.evaluations += 1
-    if not ok:
-        ctx.violation('C16.scalar.swap', name, inst + ':swap', fwhere(f, sw['l']), 'byte-order test `%s`: %s' % (pe(cond), res))
-        return
-    if res != pol:
-        ctx.violation('C16.scalar.swap', name, inst + ':swap', fwhere(f, sw['l']), 'bytes are swapped when the stream order is the native one (test `%s`, branch polarity %s)' % (pe(cond), pol))
+    if verdict[0] == 'bad':
+        ctx.violation('C16.scalar.swap', name, inst + ':swap', fwhere(f, sw['l']), verdict[1])
         return
     # ordering: writer swaps before the transfer, reader after it
     if len(raws) == 1:
@@ -268,36 +303,61 @@ def check_array_writer(ctx, prog, f, other_val):
     pt = T(f, T(f, f['params'][0]['t']).get('to'))
     # element type = type of operator[] result on the parameter; take it from the Array record name
     rec = pt.get('rec', '')
-    body = f['body']
-    top = [s for s in body['s'] if s.get('k') == 'if']
-    if len(top) != 1:
+    g = q.Guarded(f)
+    raws = [e for e in fn_exprs(f) if is_raw_transfer(e)]
+    loops = [x for x in ir.walk_stmts(f['body']) if x.get('k') in ('for', 'while')]
+    in_loop = set(id(e) for lp in loops for e in ir.stmt_exprs(lp['body']))
+    elem_calls = [e for e in fn_exprs(f) if e.get('k') == 'call' and e.get('pq') == name and id(e) in in_loop]
+    swaps_in_loop = [e for e in fn_exprs(f) if e.get('k') == 'call' and e.get('pq') in ('asl::swapBytes', 'asl::bytesSwapped') and id(e) in in_loop]
+    mentions_order = any(reads_endian_member(f, prog, w, 0) for w in fn_exprs(f) if w.get('k') in ('mem', 'call'))
+    if not mentions_order:
         # byte arrays have a single unconditional raw write
-        raws = [e for e in fn_exprs(f) if is_raw_transfer(e)]
-        if len(raws) == 1 and not top:
+        if len(raws) == 1 and not loops:
             psz, pty, _ = q.pointee_size(f, raws[0]['a'][0])
             ctx.check(psz == 1, 'C16.array', name, inst + ':bytes', fwhere(f, raws[0]['l']), 'unconditional raw write of %s elements' % pty,
                       'unconditional raw write of %s elements wider than a byte: no byte-order handling' % pty)
             return
-        ctx.undecided('C16.array', name, inst + ':shape', fwhere(f), 'array writer is neither a single raw write of bytes nor a byte-order if/else')
+        ctx.undecided('C16.array', name, inst + ':shape', fwhere(f), 'array writer is neither a single raw write of bytes nor selects on the byte order')
         return
-    s = top[0]
-    ok, res = endian_test(f, prog, s['c'], other_val)
     ctx.evaluations += 1
-    if not ok:
-        ctx.violation('C16.array', name, inst + ':test', fwhere(f, s['l']), 'byte-order test `%s`: %s' % (pe(s['c']), res))
-        return
-    swap_branch, raw_branch = (s['then'], s.get('else')) if res else (s.get('else'), s['then'])
-    # swap branch: a loop over all elements calling this class's scalar operator<<
-    loops = [x for x in ir.walk_stmts(swap_branch) if x.get('k') in ('for', 'while')] if swap_branch else []
-    elem_calls = [e for e in ir.stmt_exprs(swap_branch) if e.get('k') == 'call' and e.get('pq') == name] if swap_branch else []
-    swaps_in_loop = [e for lp in loops for e in ir.stmt_exprs(lp) if e.get('k') == 'call' and e.get('pq') in ('asl::swapBytes', 'asl::bytesSwapped')]
-    bulk = [e for e in ir.stmt_exprs(swap_branch) if is_raw_transfer(e)] if swap_branch else []
-    if loops and elem_calls:
-        ctx.ok('C16.array', name, inst + ':swapped-branch', fwhere(f, s['l']), 'non-native order: element-wise loop through the scalar operator')
-    elif loops and swaps_in_loop and len(bulk) == 1:
-        ctx.ok('C16.array', name, inst + ':swapped-branch', fwhere(f, s['l']), 'non-native order: every element swapped in a loop, then one bulk transfer (byte count by R-UNITS, source untouched by :source-immutable)')
+
+    def runs(site):
+        r = site_runs(prog, f, g, site, other_val)
+        other = [v for (n_, val), v in r.items() if val == other_val]
+        native = [v for (n_, val), v in r.items() if val != other_val]
+        return other, native
+    where_ = fwhere(f)
+    verdict = None          # ('ok' | 'bad' | 'undecided', text)
+    sites = elem_calls or swaps_in_loop
+    if not sites:
+        # no element-wise handling at all: the raw transfer runs whatever the order is?
+        bad = [e for e in raws if any(v is not False for v in runs(e)[0])]
+        if bad:
+            verdict = ('bad', 'non-native order branch neither writes every element through the scalar operator nor swaps every element before a bulk transfer')
+        else:
+            verdict = ('undecided', 'no element-wise path recognised for the non-native order')
     else:
-        ctx.violation('C16.array', name, inst + ':swapped-branch', fwhere(f, s['l']), 'non-native order branch neither writes every element through the scalar operator nor swaps every element before a bulk transfer')
+        for e in sites:
+            other, native = runs(e)
+            if None in other or None in native:
+                verdict = verdict or ('undecided', 'guards of the element-wise path not evaluable')
+            elif not all(other):
+                verdict = ('bad', 'the element-wise (swapping) path does not run when the stream order is the non-native one')
+            elif any(native):
+                verdict = ('bad', 'the element-wise (swapping) path also runs for the native order: elements are swapped when they must not be')
+        if verdict is None:
+            kind = 'element-wise loop through the scalar operator' if elem_calls else 'every element swapped in a loop, then one bulk transfer (byte count by R-UNITS, source untouched by :source-immutable)'
+            if not elem_calls:
+                bulk = [e for e in raws if all(v is True for v in runs(e)[0])]
+                if len(bulk) != 1:
+                    verdict = ('bad', 'non-native order branch neither writes every element through the scalar operator nor swaps every element before a bulk transfer')
+            verdict = verdict or ('ok', 'non-native order: ' + kind)
+    if verdict[0] == 'ok':
+        ctx.ok('C16.array', name, inst + ':swapped-branch', where_, verdict[1])
+    elif verdict[0] == 'bad':
+        ctx.violation('C16.array', name, inst + ':swapped-branch', where_, verdict[1])
+    else:
+        ctx.undecided('C16.array', name, inst + ':swapped-branch', where_, verdict[1])
     # the writer must not modify the caller's array: a local Array copy-constructed from the parameter shares its storage
     pid = f['params'][0]['id']
     shared = set([pid])
@@ -316,9 +376,21 @@ def check_array_writer(ctx, prog, f, other_val):
     ctx.check(not mut, 'C16.array', name, inst + ':source-immutable', fwhere(f, mut[0]['l'] if mut else None),
               'the writer only reads the caller\'s array', 'the writer obtains mutable access (`%s`) to storage shared with the caller\'s array: '
               'a handle copy is not a deep copy, so swapping in place corrupts the source for later writes' % (pe(mut[0]) if mut else ''))
-    raws = [e for e in ir.stmt_exprs(raw_branch) if is_raw_transfer(e)] if raw_branch else []
-    ctx.check(len(raws) == 1, 'C16.array', name, inst + ':native-branch', fwhere(f, s['l']),
-              'native order: one raw transfer (its byte count is decided by R-UNITS)', 'native order branch has %d raw transfers' % len(raws))
+    # native order: exactly one raw transfer runs, and (when elements go through the scalar operator) it runs only then
+    nat = []
+    und = False
+    for e in raws:
+        other, native = runs(e)
+        if None in native or None in other:
+            und = True
+        if all(v is True for v in native):
+            nat.append((e, other))
+    if und:
+        ctx.undecided('C16.array', name, inst + ':native-branch', where_, 'guards of a raw transfer not evaluable')
+    else:
+        okn = len(nat) == 1 and (not elem_calls or not any(nat[0][1]))
+        ctx.check(okn, 'C16.array', name, inst + ':native-branch', where_,
+                  'native order: one raw transfer (its byte count is decided by R-UNITS)', 'native order runs %d raw transfers%s' % (len(nat), '' if len(nat) != 1 else ', and the same transfer also runs after the element-wise path'))
 
 
 def provenance(f, e, ptr_field):
@@ -359,44 +431,30 @@ def check_reader(ctx, prog, other_val):
             found += 1
             ctx.analysed(f)
             inst = f['q'].split('::')[-1]
-            conds = [e for e in fn_exprs(f) if e.get('k') == 'cond']
-            if len(conds) != 1:
-                ctx.undecided('C16.reader', f['pq'], inst + ':shape', fwhere(f), 'no single byte-order conditional')
-                continue
-            c = conds[0]
-            # which arm does each byte order select?  (evaluated: BIG -> big-endian assembly; LITTLE and NATIVE - the build
-            # target is little-endian - -> little-endian assembly)
-            import bytesets
+            # the value handed to the AsOther<unsigned-k, T> converter, interpreted once per byte order: which source byte
+            # lands at which shift (byteprov: byte-provenance domain, control resolved with the byte-order member bound)
+            import byteprov
             little, native = q.enum_value(prog, 'asl::Endian', 'ENDIAN_LITTLE'), q.enum_value(prog, 'asl::Endian', 'ENDIAN_NATIVE')
-            sel = {}
-            try:
-                for name, val in (('BIG', big), ('LITTLE', little), ('NATIVE', native)):
-                    sel[name] = bool(bytesets._Bound(prog, f, lambda e: e.get('k') == 'mem' and 'endian' in e.get('f', '').lower(), val).ev(c['c']))
-            except bytesets.Undecidable as ex:
-                ctx.undecided('C16.reader', f['pq'], inst + ':test', fwhere(f, c['l']), 'byte-order test not evaluable: %s' % ex)
+            convs = [v for s_ in ir.walk_stmts(f['body']) if s_.get('k') == 'decl' for v in s_['vars'] if 'AsOther' in (T(f, v['t']).get('rec') or '') and strip(v.get('init') or {}).get('k') == 'construct' and len(strip(v['init'])['a']) == 1]
+            if len(convs) != 1:
+                ctx.undecided('C16.reader', f['pq'], inst + ':shape', fwhere(f), 'no single AsOther<> conversion of the assembled value')
                 continue
-            if sel['LITTLE'] != sel['NATIVE'] or sel['BIG'] == sel['LITTLE']:
-                ctx.violation('C16.reader', f['pq'], inst + ':test', fwhere(f, c['l']), 'byte-order test `%s` sends BIG->%s, LITTLE->%s, NATIVE->%s: NATIVE must be assembled like LITTLE (the host order) and BIG differently' % (
-                    pe(c['c']), 'first' if sel['BIG'] else 'second', 'first' if sel['LITTLE'] else 'second', 'first' if sel['NATIVE'] else 'second'))
-                continue
-            big_arm, little_arm = (c['x'], c['y']) if sel['BIG'] else (c['y'], c['x'])
-            pb, pl = provenance(f, big_arm, '_ptr'), provenance(f, little_arm, '_ptr')
-            ctx.evaluations += 2 * k
+            arg = strip(convs[0]['init'])['a'][0]
             want_b = {i: 8 * (k - 1 - i) for i in range(k)}
             want_l = {i: 8 * i for i in range(k)}
-            ctx.check(pb == want_b, 'C16.reader', f['pq'], inst + ':big-endian table', fwhere(f, c['l']), 'bytes %s' % pb,
-                      'big-endian branch assembles (byte index: shift) %s, expected %s' % (pb, want_b))
-            ctx.check(pl == want_l, 'C16.reader', f['pq'], inst + ':little-endian table', fwhere(f, c['l']), 'bytes %s' % pl,
-                      'little-endian branch assembles (byte index: shift) %s, expected %s' % (pl, want_l))
-            # the assembled value must be wide enough before shifting: every shifted operand is cast to a k-byte unsigned type
-            narrow = []
-            for x in walk_expr(c):
-                if x.get('k') == 'bin' and x['op'] == '<<':
-                    lt = T(f, x['x'].get('t'))
-                    if (lt.get('sz') or 0) * 8 <= (const_val(x['y']) or 0):
-                        narrow.append(pe(x))
-            ctx.check(not narrow, 'C16.reader', f['pq'], inst + ':shift width', fwhere(f, c['l']), 'all shifted operands are wide enough',
-                      'operand narrower than its shift: %s' % narrow)
+            is_src = lambda e: e.get('k') == 'mem' and e.get('f') == '_ptr'
+            for name, val, want in (('big-endian', big, want_b), ('little-endian', little, want_l), ('native (little-endian host)', native, want_l)):
+                bind = lambda e, val=val: val if (e.get('k') == 'mem' and 'endian' in e.get('f', '').lower()) else None
+                ctx.evaluations += k
+                try:
+                    got, narrow = byteprov.assembled(prog, f, is_src, bind, lambda it: arg)
+                except byteprov.Top as why:
+                    ctx.undecided('C16.reader', f['pq'], inst + ':%s table' % name, fwhere(f, convs[0]['l']), 'assembly not resolved to source bytes: %s' % why)
+                    continue
+                ctx.check(got == want, 'C16.reader', f['pq'], inst + ':%s table' % name, fwhere(f, convs[0]['l']), 'bytes %s' % got,
+                          'with byte order %s the value is assembled as (byte index: shift) %s, expected %s' % (name, got, want))
+                ctx.check(not narrow, 'C16.reader', f['pq'], inst + ':shift width (%s)' % name, fwhere(f, convs[0]['l']), 'all shifted operands are wide enough',
+                          'operand narrower than its shift: %s' % narrow)
             # cursor advance
             adv = [e for e in fn_exprs(f) if e.get('k') == 'bin' and e['op'] == '+=' and strip_lv(e['x']).get('f') == '_ptr']
             ctx.check(len(adv) == 1 and const_val(adv[0]['y']) == k, 'C16.reader', f['pq'], inst + ':advance', fwhere(f), 'cursor advances by %d' % k,
@@ -443,39 +501,21 @@ def check_swap(ctx, prog):
         if pt.get('rec'):
             # AsBytes<T>: the union's size
             pass
-        mem = [e for e in fn_exprs(f) if e.get('k') == 'call' and e.get('fn') == 'memcpy']
-        okm = len(mem) == 2 and all(const_val(m['a'][2]) == sz for m in mem)
-        ctx.check(okm, 'C16.swap', f['pq'], inst + ':copies', fwhere(f), 'copies %s bytes in and out' % sz, 'does not copy exactly sizeof(T)=%s bytes in and out' % sz)
-        loops = [s for s in ir.walk_stmts(f['body']) if s.get('k') == 'for']
-        if len(loops) != 1:
-            ctx.undecided('C16.swap', f['pq'], inst + ':loop', fwhere(f), 'no single reversing loop')
+        # interpreted at cell level (cellsim): which byte of the argument each byte of the result holds, for every value
+        import cellsim
+        ctx.evaluations += sz or 0
+        try:
+            perm = cellsim.permutation(prog, f, f['params'][0]['id'], sz)
+        except cellsim.Unsupported as u:
+            msg = str(u)
+            if msg.startswith('OOB:') or msg.startswith('UNDEF:'):
+                ctx.violation('C16.swap', f['pq'], inst + ':reversal', fwhere(f), 'swapBytes<%s>: %s' % (pt.get('s'), msg.split(':', 1)[1]))
+            else:
+                ctx.undecided('C16.swap', f['pq'], inst + ':reversal', fwhere(f), 'body outside the interpreted fragment: %s' % msg)
             continue
-        lp = loops[0]
-        # loop variable, bounds
-        iv = lp['init']['vars'][0] if lp.get('init') and lp['init'].get('k') == 'decl' else None
-        c = strip(lp.get('c') or {})
-        bound = const_val(c.get('y')) if c.get('k') == 'bin' and c.get('op') == '<' else None
-        start = const_val(iv.get('init')) if iv else None
-        inc = strip(lp.get('inc') or {})
-        unit = inc.get('k') == 'un' and inc.get('op') in ('post++', 'pre++')
-        assigns = [e for e in ir.stmt_exprs(lp['body']) if e.get('k') == 'bin' and e['op'] == '=']
-        good = False
-        detail = ''
-        if iv and bound == sz and start == 0 and unit and len(assigns) == 1:
-            a = assigns[0]
-            dst, src = strip_lv(a['x']), strip(a['y'])
-            if dst.get('k') == 'idx' and src.get('k') == 'idx':
-                di = affine(dst['i'], iv['id'])
-                si = affine(src['i'], iv['id'])
-                ctx.evaluations += sz or 0
-                if di is not None and si is not None:
-                    # all i in [0,sz): dst index and src index must be mirror images and cover 0..sz-1
-                    dmap = [di[0] * i + di[1] for i in range(sz)]
-                    smap = [si[0] * i + si[1] for i in range(sz)]
-                    good = sorted(dmap) == list(range(sz)) and all(dmap[i] + smap[i] == sz - 1 for i in range(sz))
-                    detail = 'dst index %s, src index %s' % (dmap, smap)
-        ctx.check(good, 'C16.swap', f['pq'], inst + ':reversal', fwhere(f, lp['l']), 'loop mirrors bytes: ' + detail,
-                  'loop does not write every byte i from byte sizeof(T)-1-i (%s)' % (detail or 'unrecognised index form'))
+        want = [sz - 1 - j for j in range(sz)]
+        ctx.check(perm == want, 'C16.swap', f['pq'], inst + ':reversal', fwhere(f), 'result byte j = argument byte %d - j for all %d bytes' % (sz - 1, sz),
+                  'swapBytes<%s> leaves argument bytes in the order %s, expected the full reversal %s' % (pt.get('s'), perm, want))
 
 
 def affine(e, var_id):
